@@ -203,6 +203,42 @@ func c11Run(b core.Batch, r *core.Recorder) {
 				r.Sample(map[string]any{"target": hp, "kind": detail})
 			}
 		}
+	case "spellings":
+		// two spellings of one host, in both orders, each on a CA instance that has issued nothing: whatever is shared
+		// between them, every returned leaf must name the host as it was written in that request
+		pairs := [][2]string{{"svc.corp.example.", "svc.corp.example"}, {"svc.corp.example", "svc.corp.example."}, {"Mixed.Case.example", "mixed.case.example"}, {"mixed.case.example", "MIXED.CASE.EXAMPLE"},
+			{"UPPER.example.", "upper.example"}, {"[2001:DB8::A]", "[2001:db8::a]"}, {"[2001:db8:0:0::a]", "[2001:db8::a]"}, {"dot.example.", "DOT.example."}}
+		for i, pr := range pairs {
+			id := fmt.Sprintf("sp%d", i)
+			if !r.Case(id, pr) {
+				continue
+			}
+			r.Eval(1)
+			fca, err := ca.Fresh()
+			if err != nil {
+				r.NotJudged("cannot-reload-ca")
+				continue
+			}
+			cs := map[string]any{"id": id, "first": pr[0] + ":443", "then": pr[1] + ":443"}
+			judged := 0
+			for k, h := range pr {
+				hp := h + ":443"
+				cert, err := fca.CA.GetCertForHost(hp)
+				if err != nil {
+					continue // a refused spelling is not judged
+				}
+				judged++
+				if sig, detail := c11checkLeaf(fca, hp, cert); sig != "" {
+					r.Violation("C11", "C11:spelling:"+[]string{"first", "second"}[k]+":"+sig, fmt.Sprintf("requests for %q then %q: the leaf returned for %q: %s", pr[0], pr[1], h, detail), cs, nil)
+					break
+				}
+			}
+			if judged == 2 {
+				r.Count("spelling_pairs", 1)
+				r.Nontrivial("spelling", pr[0], pr[1])
+			}
+		}
+		r.Sample(map[string]any{"part": "spellings", "what": "trailing dot / letter case / IPv6 text form variants of one host requested one after the other on a fresh CA instance"})
 	case "expiry":
 		hosts := []string{"expired.example", "EXPIRED-2.example", "127.0.0.9", "::9", "a_b.expired.test"}
 		margins := []time.Duration{time.Second, time.Minute, time.Hour, 24 * time.Hour, 10 * 365 * 24 * time.Hour}
@@ -482,6 +518,46 @@ func c11Run(b core.Batch, r *core.Recorder) {
 				r.Violation("C11", "C11:wire:sni-differs:leaf-does-not-name-the-connect-target", fmt.Sprintf("CONNECT %s with SNI %q: the presented certificate (DNS=%v IP=%v) does not verify for %q: %v", t.target, t.sni, leaf.DNSNames, leaf.IPAddresses, t.host, err), cs, nil)
 			}
 		}
+		// a leaf that expires while the proxy keeps running, after an earlier tunnel to the same target was served
+		// with it: the next tunnel must be given a certificate that is valid then
+		{
+			type sl struct{ target, host string }
+			sls := []sl{{"short-lived.example:443", "short-lived.example"}, {"10.66.1.2:8443", "10.66.1.2"}}
+			okFirst := map[string]bool{}
+			for _, x := range sls {
+				leaf := c11signLeaf(p.CA, x.host, time.Now().Add(-time.Minute), time.Now().Add(2500*time.Millisecond))
+				if leaf == nil {
+					continue
+				}
+				p.CA.CA.VerifPutCert(x.host, leaf)
+				if t1, err := rig.OpenTunnel(p.Addr, x.target, x.host, p.CA.Pool); err == nil {
+					okFirst[x.target] = t1.Leaf != nil && t1.Leaf.Equal(leaf.Leaf)
+					t1.Close()
+				}
+			}
+			time.Sleep(2800 * time.Millisecond)
+			for i, x := range sls {
+				id := fmt.Sprintf("exp-wire%d", i)
+				if !r.Case(id, x.target) {
+					continue
+				}
+				r.Eval(1)
+				if !okFirst[x.target] {
+					r.NotJudged("short-lived-leaf-not-presented-first")
+					continue
+				}
+				cs := map[string]any{"id": id, "target": x.target}
+				t2, err := rig.OpenTunnel(p.Addr, x.target, x.host, p.CA.Pool)
+				r.Count("tunnels_after_leaf_expiry", 1)
+				r.Nontrivial("expiry-wire", x.target)
+				if err != nil {
+					r.Violation("C11", "C11:wire:expired-leaf-presented-again", fmt.Sprintf("an earlier tunnel to %s was served a leaf that has expired since; the next tunnel fails verification: %v", x.target, err), cs, nil)
+					continue
+				}
+				t2.Close()
+				r.Count("handshakes_verified", 1)
+			}
+		}
 		// overlapping tunnels to different hosts: each tunnel must be served the certificate of ITS target, also
 		// when other tunnels are set up between its CONNECT and its handshake, and when many handshake at once
 		nov := b.Int("overlaps", 12)
@@ -578,6 +654,7 @@ func c11Plan(tier string, seed int64) []core.Batch {
 	return []core.Batch{
 		{Name: "api", TimeoutS: 1800, Args: map[string]any{"part": "api", "n": n}},
 		{Name: "expiry", Race: true, TimeoutS: 1800, Args: map[string]any{"part": "expiry"}},
+		{Name: "spellings", TimeoutS: 1800, Args: map[string]any{"part": "spellings"}},
 		{Name: "burst", Race: true, TimeoutS: 1800, Args: map[string]any{"part": "burst", "rounds": rounds}},
 		{Name: "cakinds", TimeoutS: 1800, Args: map[string]any{"part": "cakinds"}},
 		{Name: "wire", TimeoutS: 1800, Args: map[string]any{"part": "wire", "n": w, "overlaps": w/2 + 2}},
@@ -589,12 +666,12 @@ func init() {
 		ID:    "C11",
 		Level: "exploration",
 		Rule: "API level: 55 fixed host:port forms (case mixes, trailing dot, underscore, punycode, 63-char labels, wildcard, spaces, IPv4 edge values, bracketed IPv6 incl. zone / v4-mapped / malformed, ports 0..65535 and malformed) plus seeded random DNS / IPv4 / IPv6 targets through the real GetCertForHost; every returned leaf: x509.Verify against the CA pool for exactly that host now, exactly one SAN, validity window, private key signs a nonce the leaf key verifies, second call returns the same pointer; " +
-			"expiry: harness-signed leaves with NotAfter = now - {1 s, 1 min, 1 h, 1 d, 10 y} placed in the cache, then 1 or 16 concurrent requests; bursts of 2..64 concurrent first requests for one new host or for as many distinct new hosts, alternately on a CA instance that has issued nothing yet and on a used one (race build), followed by a request for a further new host; CA key types p256/p384/p521/rsa2048/rsa3072/ed25519 and CA certificate files that are bundles (issuing CA first) (leaf checks + handshakes through a proxy configured with that CA); wire: CONNECT + TLS handshakes verified by Go's TLS client, twice per target; tunnels whose TLS hello names another host than the CONNECT target, or none (the leaf must still name the target); groups of 2-5 tunnels to different hosts whose CONNECTs are all answered before any handshake starts (handshakes then in reverse order, or all at once). Non-trivial = distinct accepted target / expiry case / burst / handshake target.",
+			"expiry: harness-signed leaves with NotAfter = now - {1 s, 1 min, 1 h, 1 d, 10 y} placed in the cache, then 1 or 16 concurrent requests; bursts of 2..64 concurrent first requests for one new host or for as many distinct new hosts, alternately on a CA instance that has issued nothing yet and on a used one (race build), followed by a request for a further new host; CA key types p256/p384/p521/rsa2048/rsa3072/ed25519 and CA certificate files that are bundles (issuing CA first) (leaf checks + handshakes through a proxy configured with that CA); spellings: trailing-dot / letter-case / IPv6 text variants of one host requested one after the other on a fresh CA instance, each leaf must name the host as written in its request; wire: a harness-signed leaf valid for 2.5 s is presented on a first tunnel, and the tunnel opened after it has expired must get a valid one; CONNECT + TLS handshakes verified by Go's TLS client, twice per target; tunnels whose TLS hello names another host than the CONNECT target, or none (the leaf must still name the target); groups of 2-5 tunnels to different hosts whose CONNECTs are all answered before any handshake starts (handshakes then in reverse order, or all at once). Non-trivial = distinct accepted target / expiry case / burst / handshake target.",
 		Assumptions: []string{"targets the CA refuses are counted, not judged", "x509.Verify and crypto/tls of the Go standard library are the independent oracle"},
 		Plan:        c11Plan,
 		Run:         c11Run,
 		Parallel:    4,
-		Floors: map[string]map[string]int64{"quick": {"accepted_dns": 50, "accepted_ipv4": 50, "accepted_ipv6": 50, "expiry_cases": 40, "burst_cases": 90, "burst_cases_on_a_ca_that_had_issued_nothing": 40, "ca_kinds": 8, "handshakes_verified": 40, "overlapping_tunnel_groups": 10},
-			"thorough": {"accepted_dns": 5000, "accepted_ipv4": 5000, "accepted_ipv6": 5000, "expiry_cases": 40, "burst_cases": 900, "burst_cases_on_a_ca_that_had_issued_nothing": 400, "ca_kinds": 8, "handshakes_verified": 1500, "overlapping_tunnel_groups": 400}},
+		Floors: map[string]map[string]int64{"quick": {"accepted_dns": 50, "accepted_ipv4": 50, "accepted_ipv6": 50, "expiry_cases": 40, "burst_cases": 90, "burst_cases_on_a_ca_that_had_issued_nothing": 40, "ca_kinds": 8, "handshakes_verified": 40, "overlapping_tunnel_groups": 10, "spelling_pairs": 4, "tunnels_after_leaf_expiry": 2},
+			"thorough": {"accepted_dns": 5000, "accepted_ipv4": 5000, "accepted_ipv6": 5000, "expiry_cases": 40, "burst_cases": 900, "burst_cases_on_a_ca_that_had_issued_nothing": 400, "ca_kinds": 8, "handshakes_verified": 1500, "overlapping_tunnel_groups": 400, "spelling_pairs": 4, "tunnels_after_leaf_expiry": 2}},
 	})
 }
